@@ -1,0 +1,33 @@
+//go:build verif
+
+package wastepb
+
+// Machine-checked contracts for this package (comment-only; excluded from normal builds).
+
+//@ property C15
+//@ func (*Model).GetWasteRecordCount() (n)
+//@   requires recv != nil
+//@   ensures n == len(recv.allWasteRecords)
+//@   modifies nothing
+//@
+//@ // newest first: res[j] == records[start-1-j]; any start and any count must be answered without a panic
+//@ func (*Model).ListWasteRecords(start, count) (res)
+//@   requires recv != nil
+//@   letold recs := recv.allWasteRecords
+//@   ensures [none] start <= 0 ==> len(res) == 0
+//@   ensures [len] start > 0 && start <= len(recs) ==> (count <= 1 ==> len(res) == 1) && (count > 1 ==> len(res) == min(start, count))
+//@   ensures [order] start <= len(recs) ==> forall j int :: 0 <= j && j < len(res) ==> res[j] == recs[start-1-j]
+//@   modifies nothing
+//@   replay WasteList(start, count)
+//@   loop 0:
+//@     invariant 0 - 1 <= i && i <= start - 1 && (start > len(recs) || i < len(recs))
+//@     invariant len(wasteRecords) == start - 1 - i && (len(wasteRecords) > 0 ==> fresh(wasteRecords))
+//@     invariant start - 1 - i > 0 ==> start - 1 - i < count
+//@     invariant forall j int :: 0 <= j && j < len(wasteRecords) ==> wasteRecords[j] == recs[start-1-j]
+//@     decreases i + 1
+//@
+//@ func (*ModelServer).ListWasteRecords(ctx, req) (resp, err)
+//@   requires recv != nil && recv.model != nil && req != nil
+//@   ensures [negative] old(req.PageSize) < 0 ==> err != nil
+//@   ensures [page-size] err == nil ==> len(resp.WasteRecords) <= 1000 && (old(req.PageSize) > 0 ==> len(resp.WasteRecords) <= old(req.PageSize)) && (old(req.PageSize) == 0 ==> len(resp.WasteRecords) <= 50)
+//@   replay WasteListServer(req.PageSize)
